@@ -422,4 +422,337 @@ theorem histInv_run (evs : List Ev) (st : Store × List (List Utxo)) (h : HistIn
   | nil => simpa [deposits] using h
   | cons e r ih => exact ih _ (histInv_step st e r h)
 
+theorem bytesLt_irrefl (a : List UInt8) : bytesLt a a = false := by
+  induction a with
+  | nil => rfl
+  | cons x r ih => simp [bytesLt, ih]
+
+theorem bytesLt_asymm (a b : List UInt8) (h : bytesLt a b = true) : bytesLt b a = false := by
+  induction a generalizing b with
+  | nil => cases b <;> simp [bytesLt] at h ⊢
+  | cons x r ih =>
+    cases b with
+    | nil => simp [bytesLt] at h
+    | cons y s =>
+      simp only [bytesLt] at h ⊢
+      by_cases h1 : x < y
+      · have : ¬ y < x := by
+          intro h2; exact absurd (UInt8.lt_trans h1 h2) (UInt8.lt_irrefl x)
+        simp [this, h1]
+      · simp only [h1, if_false] at h
+        by_cases h2 : y < x
+        · simp [h2] at h
+        · simp only [h2, if_false] at h
+          simp [h1, h2, ih s h]
+
+theorem bytesLt_trans (a b c : List UInt8) (h1 : bytesLt a b = true) (h2 : bytesLt b c = true) : bytesLt a c = true := by
+  induction a generalizing b c with
+  | nil =>
+    cases b with
+    | nil => simp [bytesLt] at h1
+    | cons y s => cases c <;> simp [bytesLt] at h2 ⊢
+  | cons x r ih =>
+    cases b with
+    | nil => simp [bytesLt] at h1
+    | cons y s =>
+      cases c with
+      | nil => simp [bytesLt] at h2
+      | cons z t =>
+        simp only [bytesLt] at h1 h2 ⊢
+        by_cases hxy : x < y
+        · by_cases hyz : y < z
+          · simp [UInt8.lt_trans hxy hyz]
+          · simp only [hyz, if_false] at h2
+            by_cases hzy : z < y
+            · simp [hzy] at h2
+            · have : y = z := by
+                apply UInt8.le_antisymm <;> (apply UInt8.not_lt.mp; assumption)
+              subst this; simp [hxy]
+        · simp only [hxy, if_false] at h1
+          by_cases hyx : y < x
+          · simp [hyx] at h1
+          · simp only [hyx, if_false] at h1
+            have : x = y := by
+              apply UInt8.le_antisymm <;> (apply UInt8.not_lt.mp; assumption)
+            subst this
+            by_cases hxz : x < z
+            · simp [hxz]
+            · simp only [hxz, if_false] at h2 ⊢
+              by_cases hzx : z < x
+              · simp [hzx] at h2
+              · simp only [hzx, if_false] at h2 ⊢
+                exact ih s t h1 h2
+
+theorem bytesLt_total (a b : List UInt8) (h : a ≠ b) : bytesLt a b = true ∨ bytesLt b a = true := by
+  induction a generalizing b with
+  | nil => cases b with
+    | nil => exact absurd rfl h
+    | cons y s => left; simp [bytesLt]
+  | cons x r ih =>
+    cases b with
+    | nil => right; simp [bytesLt]
+    | cons y s =>
+      simp only [bytesLt]
+      by_cases hxy : x < y
+      · left; simp [hxy]
+      · by_cases hyx : y < x
+        · right; simp [hyx]
+        · have : x = y := by
+            apply UInt8.le_antisymm <;> (apply UInt8.not_lt.mp; assumption)
+          subst this
+          have hrs : r ≠ s := fun e => h (by rw [e])
+          simp only [hxy, if_false]
+          exact ih s hrs
+
+/-- the sort key of chooseUtxos -/
+def skey (u : Utxo) : Nat × List UInt8 × Nat := (u.value, u.hash, u.index)
+
+theorem less_irrefl (a : Utxo) : less a a = false := by simp [less]
+
+theorem less_of_key_eq (a b : Utxo) (h : skey a = skey b) : less a b = false := by
+  simp only [skey, Prod.mk.injEq] at h
+  obtain ⟨h1, h2, h3⟩ := h
+  simp [less, h1, h2, h3]
+
+theorem less_asymm (a b : Utxo) (h : less a b = true) : less b a = false := by
+  unfold less at h ⊢
+  by_cases hv : a.value = b.value
+  · simp only [hv, beq_self_eq_true, if_true] at h ⊢
+    by_cases hh : a.hash = b.hash
+    · simp only [hh, beq_self_eq_true, if_true, decide_eq_true_eq] at h ⊢
+      simp; omega
+    · have h1 : (a.hash == b.hash) = false := by simpa using hh
+      have h2 : (b.hash == a.hash) = false := by simpa using fun e => hh e.symm
+      simp only [h1, Bool.false_eq_true, if_false] at h
+      simp only [h2, Bool.false_eq_true, if_false]
+      exact bytesLt_asymm _ _ h
+  · have h1 : (a.value == b.value) = false := by simpa using hv
+    have h2 : (b.value == a.value) = false := by simpa using fun e => hv e.symm
+    simp only [h1, Bool.false_eq_true, if_false, decide_eq_true_eq] at h
+    simp only [h2, Bool.false_eq_true, if_false]
+    simp; omega
+
+theorem less_total (a b : Utxo) (h : skey a ≠ skey b) : less a b = true ∨ less b a = true := by
+  unfold less
+  by_cases hv : a.value = b.value
+  · simp only [hv, beq_self_eq_true, if_true]
+    by_cases hh : a.hash = b.hash
+    · simp only [hh, beq_self_eq_true, if_true, decide_eq_true_eq]
+      have : a.index ≠ b.index := by
+        intro e; apply h; simp [skey, hv, hh, e]
+      omega
+    · have h1 : (a.hash == b.hash) = false := by simpa using hh
+      have h2 : (b.hash == a.hash) = false := by simpa using fun e => hh e.symm
+      simp only [h1, h2, Bool.false_eq_true, if_false]
+      exact bytesLt_total _ _ hh
+  · have h1 : (a.value == b.value) = false := by simpa using hv
+    have h2 : (b.value == a.value) = false := by simpa using fun e => hv e.symm
+    simp only [h1, h2, Bool.false_eq_true, if_false, decide_eq_true_eq]
+    omega
+
+theorem less_trans (a b c : Utxo) (h1 : less a b = true) (h2 : less b c = true) : less a c = true := by
+  unfold less at h1 h2 ⊢
+  by_cases hab : a.value = b.value
+  · by_cases hbc : b.value = c.value
+    · have hac : a.value = c.value := hab.trans hbc
+      simp only [hab, hbc, beq_self_eq_true, if_true] at h1 h2 ⊢
+      by_cases e1 : a.hash = b.hash
+      · by_cases e2 : b.hash = c.hash
+        · have e3 : a.hash = c.hash := e1.trans e2
+          simp only [e1, e2, beq_self_eq_true, if_true, decide_eq_true_eq] at h1 h2 ⊢
+          omega
+        · have f2 : (b.hash == c.hash) = false := by simpa using e2
+          have f3 : (a.hash == c.hash) = false := by rw [e1]; exact f2
+          simp only [f2, Bool.false_eq_true, if_false] at h2
+          simp only [f3, Bool.false_eq_true, if_false]
+          rw [e1]; exact h2
+      · have f1 : (a.hash == b.hash) = false := by simpa using e1
+        simp only [f1, Bool.false_eq_true, if_false] at h1
+        by_cases e2 : b.hash = c.hash
+        · have f3 : (a.hash == c.hash) = false := by rw [← e2]; exact f1
+          simp only [f3, Bool.false_eq_true, if_false]
+          rw [← e2]; exact h1
+        · have f2 : (b.hash == c.hash) = false := by simpa using e2
+          simp only [f2, Bool.false_eq_true, if_false] at h2
+          have h3 := bytesLt_trans _ _ _ h1 h2
+          have e3 : a.hash ≠ c.hash := by
+            intro e; rw [e] at h3; rw [bytesLt_irrefl] at h3; simp at h3
+          have f3 : (a.hash == c.hash) = false := by simpa using e3
+          simp only [f3, Bool.false_eq_true, if_false]; exact h3
+    · have f2 : (b.value == c.value) = false := by simpa using hbc
+      simp only [hab, beq_self_eq_true, if_true] at h1
+      simp only [f2, Bool.false_eq_true, if_false, decide_eq_true_eq] at h2
+      have f3 : (a.value == c.value) = false := by rw [hab]; exact f2
+      simp only [f3, Bool.false_eq_true, if_false, decide_eq_true_eq]; omega
+  · have f1 : (a.value == b.value) = false := by simpa using hab
+    simp only [f1, Bool.false_eq_true, if_false, decide_eq_true_eq] at h1
+    by_cases hbc : b.value = c.value
+    · have f3 : (a.value == c.value) = false := by rw [← hbc]; exact f1
+      simp only [f3, Bool.false_eq_true, if_false, decide_eq_true_eq]; omega
+    · have f2 : (b.value == c.value) = false := by simpa using hbc
+      simp only [f2, Bool.false_eq_true, if_false, decide_eq_true_eq] at h2
+      have : a.value ≠ c.value := by omega
+      have f3 : (a.value == c.value) = false := by simpa using this
+      simp only [f3, Bool.false_eq_true, if_false, decide_eq_true_eq]; omega
+
+/-- strictly descending: whatever comes later is smaller -/
+def SDesc (l : List Utxo) : Prop := l.Pairwise fun a b => less b a = true
+
+theorem mem_insertDesc (u x : Utxo) (l : List Utxo) : x ∈ insertDesc u l ↔ x = u ∨ x ∈ l :=
+  (insertDesc_perm u l).mem_iff.trans List.mem_cons
+
+theorem insertDesc_sdesc (u : Utxo) (l : List Utxo) (hl : SDesc l) (hk : ∀ x ∈ l, skey x ≠ skey u) :
+    SDesc (insertDesc u l) := by
+  induction l with
+  | nil => simp [insertDesc, SDesc]
+  | cons v r ih =>
+    have hp := List.pairwise_cons.mp hl
+    unfold insertDesc
+    split
+    · rename_i huv
+      refine List.pairwise_cons.mpr ⟨?_, ih hp.2 (fun x hx => hk x (List.mem_cons_of_mem _ hx))⟩
+      intro x hx
+      rcases (mem_insertDesc u x r).mp hx with rfl | hx
+      · exact huv
+      · exact hp.1 x hx
+    · rename_i huv
+      have hvu : less v u = true := by
+        rcases less_total v u (hk v List.mem_cons_self) with h | h
+        · exact h
+        · exact absurd h huv
+      refine List.pairwise_cons.mpr ⟨?_, hl⟩
+      intro x hx
+      rcases List.mem_cons.mp hx with rfl | hx
+      · exact hvu
+      · exact less_trans _ _ _ (hp.1 x hx) hvu
+
+theorem sortDesc_sdesc (l : List Utxo) (hk : (l.map skey).Nodup) : SDesc (sortDesc l) := by
+  induction l with
+  | nil => simp [sortDesc, SDesc]
+  | cons u r ih =>
+    simp only [List.map_cons, List.nodup_cons] at hk
+    unfold sortDesc
+    apply insertDesc_sdesc u _ (ih hk.2)
+    intro x hx e
+    have : x ∈ r := (sortDesc_perm r).mem_iff.mp hx
+    exact hk.1 (e ▸ List.mem_map.mpr ⟨x, this, rfl⟩)
+
+/-- Two strictly descending lists, the elements of one among those of the other: a sublist. -/
+theorem sdesc_sublist (R U : List Utxo) (hR : SDesc R) (hU : SDesc U) (hsub : ∀ x ∈ R, x ∈ U) : R.Sublist U := by
+  induction U generalizing R with
+  | nil =>
+    cases R with
+    | nil => exact List.Sublist.refl _
+    | cons r _ => exact absurd (hsub r List.mem_cons_self) (by simp)
+  | cons u U' ih =>
+    have hu := List.pairwise_cons.mp hU
+    cases R with
+    | nil => exact List.nil_sublist _
+    | cons r R' =>
+      have hr := List.pairwise_cons.mp hR
+      by_cases hru : r = u
+      · subst hru
+        refine List.Sublist.cons_cons r (ih R' hr.2 hu.2 ?_)
+        intro x hx
+        rcases List.mem_cons.mp (hsub x (List.mem_cons_of_mem _ hx)) with rfl | h
+        · have := hr.1 x hx; rw [less_irrefl] at this; simp at this
+        · exact h
+      · have hrU : r ∈ U' := by
+          rcases List.mem_cons.mp (hsub r List.mem_cons_self) with h | h
+          · exact absurd h hru
+          · exact h
+        have hlt : less r u = true := hu.1 r hrU
+        refine List.Sublist.cons u (ih (r :: R') hR hu.2 ?_)
+        intro x hx
+        rcases List.mem_cons.mp (hsub x hx) with rfl | h
+        · rcases List.mem_cons.mp hx with rfl | hx'
+          · exact absurd rfl hru
+          · have h1 := hr.1 x hx'
+            have := less_trans _ _ _ h1 hlt
+            rw [less_irrefl] at this; simp at this
+        · exact h
+
+theorem cons_sublist_split (r : Utxo) (R D : List Utxo) (h : (r :: R).Sublist D) :
+    ∃ k, D[k]? = some r ∧ R.Sublist (D.drop (k + 1)) := by
+  induction D with
+  | nil => simp at h
+  | cons d D' ih =>
+    cases h with
+    | cons _ h' =>
+      obtain ⟨k, h1, h2⟩ := ih h'
+      exact ⟨k + 1, by simpa using h1, by simpa using h2⟩
+    | cons_cons _ h' => exact ⟨0, by simp, by simpa using h'⟩
+
+theorem drop_eraseIdx_self (l : List Utxo) (i : Nat) (hi : i < l.length) : (l.eraseIdx i).drop i = l.drop (i + 1) := by
+  rw [List.eraseIdx_eq_take_drop_succ]
+  rw [List.drop_append_of_le_length (by simp; omega)]
+  simp
+
+theorem removeWalk_some (U : List Utxo) (idx : Nat) (R : List Utxo) (hk : (U.map opKey).Nodup)
+    (hs : R.Sublist (U.drop idx)) : ∃ rest, removeWalk U idx R = some rest := by
+  induction R generalizing U idx with
+  | nil => exact ⟨U, by simp [removeWalk]⟩
+  | cons r R' ih =>
+    obtain ⟨k, hk1, hk2⟩ := cons_sublist_split r R' _ hs
+    have hkl : k < (U.drop idx).length := by
+      rcases Nat.lt_or_ge k (U.drop idx).length with h | h
+      · exact h
+      · rw [List.getElem?_eq_none h] at hk1; simp at hk1
+    rw [List.getElem?_eq_getElem hkl] at hk1
+    simp only [Option.some.injEq] at hk1
+    unfold removeWalk
+    cases hf : (U.drop idx).findIdx? (fun x => opKey x == opKey r) with
+    | none =>
+      have := List.findIdx?_eq_none_iff.mp hf (U.drop idx)[k] (List.getElem_mem _)
+      simp [hk1] at this
+    | some k' =>
+      obtain ⟨hlt, hx, _⟩ := List.findIdx?_eq_some_iff_getElem.mp hf
+      simp only [beq_iff_eq] at hx
+      -- k' = k: the keys of U.drop idx are pairwise different
+      have hkd : ((U.drop idx).map opKey).Nodup := hk.sublist ((List.drop_sublist _ _).map _)
+      have e1 : ((U.drop idx).map opKey)[k']'(by simpa using hlt) = opKey r := by simpa using hx
+      have e2 : ((U.drop idx).map opKey)[k]'(by simpa using hkl) = opKey r := by
+        rw [List.getElem_map, hk1]
+      have hkk : k' = k := (List.getElem_inj hkd).mp (e1.trans e2.symm)
+      subst hkk
+      simp only
+      have hil : idx + k' < U.length := by simp at hkl; omega
+      apply ih (U.eraseIdx (idx + k')) (idx + k') (hk.sublist ((List.eraseIdx_sublist _ _).map _))
+      rw [drop_eraseIdx_self U _ hil]
+      have : U.drop (idx + k' + 1) = (U.drop idx).drop (k' + 1) := by
+        rw [List.drop_drop]; rfl
+      rw [this]; exact hk2
+
+theorem skey_nodup_of_opKey (l : List Utxo) (h : (l.map opKey).Nodup) : (l.map skey).Nodup := by
+  unfold List.Nodup at h ⊢
+  rw [List.pairwise_map] at h ⊢
+  refine h.imp ?_
+  intro a b hab e
+  apply hab
+  simp only [skey, Prod.mk.injEq] at e
+  simp [opKey, e.2.1, e.2.2]
+
+theorem chooseUtxos_no_panic (T : Tests) (P : Params) (s : Store) (tries : Int)
+    (hk : (s.utxos.map opKey).Nodup) : chooseUtxos T P s tries ≠ .panic := by
+  unfold chooseUtxos
+  simp only
+  split
+  · rename_i hp; exact absurd hp (select_no_panic T P _ tries)
+  · simp
+  · rename_i a0 hsel
+    split
+    · simp
+    · rename_i hne
+      obtain ⟨⟨idxs, hnd, hpk⟩, _, _, _⟩ := select_conserves' T P (sortDesc s.utxos) tries a0 hsel
+      have hsp := sortDesc_perm s.utxos
+      have hk1 : ((sortDesc s.utxos).map opKey).Nodup := (hsp.map opKey).nodup_iff.mpr hk
+      have hkeys := picks_keys_nodup _ _ _ hk1 hnd hpk
+      have hm := picks_mem _ _ _ hpk
+      have hU : SDesc (sortDesc s.utxos) := sortDesc_sdesc _ (skey_nodup_of_opKey _ hk)
+      have hR : SDesc (sortDesc a0.sel) := sortDesc_sdesc _ (skey_nodup_of_opKey _ hkeys)
+      have hsub : (sortDesc a0.sel).Sublist (sortDesc s.utxos) :=
+        sdesc_sublist _ _ hR hU (fun x hx => hm x ((sortDesc_perm a0.sel).mem_iff.mp hx))
+      obtain ⟨rest, hr⟩ := removeWalk_some (sortDesc s.utxos) 0 (sortDesc a0.sel) hk1 (by simpa using hsub)
+      rw [hr]; simp
+
 end Poly.Proofs.Btc
